@@ -486,8 +486,34 @@ def run(ctx: Any, prog: Program) -> None:
         bad = [c for c in ast.walk(fn) if isinstance(c, ast.Call) and dotted(c.func) == 'FixupValue' and not (len(c.args) == 3 and isinstance(c.args[2], ast.Attribute) and c.args[2].attr == 'id')]
         ctx.check('C08.D5', not bad, vm, fn, f'EntityFixup.{name} must keep each value\'s index', text=f'{name} keeps indexes')
 
+    # ---- D6: objects that own an id are never cloned generically ------------------------------------------------------------------------------
+    # Solid, Side and Entity release their id in __del__.  `copy.copy(obj)` (they define no __copy__) makes a second object with the SAME
+    # id and map; when that clone is collected its __del__ hands the id of the still-live original back to the manager, and the next object
+    # created gets a duplicate id.  Clones are made through the classes' own copy() methods, which allocate a fresh id.
+    ctx.rule('C08.D6', 'classes releasing an id in __del__ are cloned only through their copy() methods (no copy.copy / deepcopy of them)', floor=3)
+    owners6 = [c.name for c in vm.tree.body if isinstance(c, ast.ClassDef) and any(isinstance(f, ast.FunctionDef) and f.name == '__del__' for f in c.body)]
+    generic6 = []
+    for mn6 in ('vmf', 'instancing'):
+        m6 = prog.module(mn6)
+        clone_names = {'copy.copy', 'copy.deepcopy', 'copy.replace', '_copy.copy', '_copy.deepcopy'}
+        for st in m6.tree.body:
+            if isinstance(st, ast.ImportFrom) and st.module == 'copy':
+                clone_names |= {(al.asname or al.name) for al in st.names if al.name in ('copy', 'deepcopy', 'replace')}
+        for c in ast.walk(m6.tree):
+            if isinstance(c, ast.Call) and dotted(c.func) in clone_names and c.args and not isinstance(c.args[0], (ast.List, ast.Dict, ast.Set, ast.Tuple, ast.Constant, ast.ListComp, ast.DictComp, ast.SetComp)):
+                generic6.append((m6, c))
+    for cn6 in owners6:
+        cd6 = vm.cls(cn6)
+        own_copy = any(isinstance(f, ast.FunctionDef) and f.name in ('__copy__', '__deepcopy__', '__reduce__', '__reduce_ex__') for f in cd6.body)
+        bad6 = [] if own_copy else generic6
+        ctx.check('C08.D6', not bad6, bad6[0][0] if bad6 else vm, bad6[0][1] if bad6 else cd6, f'`{U(bad6[0][1])[:50] if bad6 else ""}` clones an object generically: {cn6} releases its id in __del__ and defines no __copy__, so a clone of one '
+                  'shares the id and gives it back to the manager when it is collected, while the original still lives - the next object created gets the same id', func=cn6, text=f'{cn6} is cloned only through copy()')
+    if len(owners6) < 3:
+        raise AnalysisError(f'D6: only {owners6} release an id in __del__ (Solid, Side, Entity confirmed by hand)')
+
 
 MUTANTS = [
+    {'id': 'export_through_shallow_clone', 'file': 'vmf.py', 'find': "        self.spawn.export(dest_file, disp_multiblend=disp_multiblend, _is_worldspawn=True)", 'replace': "        __import__('copy').copy(self.spawn)\n        self.spawn.export(dest_file, disp_multiblend=disp_multiblend, _is_worldspawn=True)", 'extra': [{'file': 'vmf.py', 'find': "import builtins\n", 'replace': "import builtins\nimport copy\n"}, {'file': 'vmf.py', 'find': "        __import__('copy').copy(self.spawn)\n", 'replace': "        copy.copy(self.spawn)\n"}], 'expect': 'C08.D6', 'note': 'round 12'},
     {'id': 'solid_del_releases_face_ids_through_alias', 'file': 'vmf.py', 'find': "        \"\"\"Forget this solid's ID when the object is destroyed.\"\"\"\n        self.map.solid_id.discard(self.id)\n", 'replace': "        \"\"\"Forget this solid's ID when the object is destroyed.\"\"\"\n        self.map.solid_id.discard(self.id)\n        release_face = self.map.face_id.discard\n        for side in self.sides:\n            release_face(side.id)\n", 'expect': 'C08.D4'},
     {'id': 'nodeid_only_for_node_classes', 'file': 'vmf.py', 'find': "        elif key_fold == 'nodeid':\n", 'replace': "        elif key_fold == 'nodeid' and self['classname'].casefold().startswith('info_node'):\n", 'expect': 'C08.D4'},
     {'id': 'fixup_update_imports_foreign_indexes', 'file': 'vmf.py', 'find': "    @overload\n    def setdefault(self, var: str, /, default: str = ...) -> str: ...", 'replace': "    def update(self, other: Any = (), /, **kwargs: ValidKVs) -> None:  # type: ignore[override]\n        if isinstance(other, EntityFixup) and self._fixup.keys().isdisjoint(other._fixup):\n            for folded_var, fix in other._fixup.items():\n                self._fixup[folded_var] = FixupValue(fix.var, fix.value, fix.id)\n            self._matcher = None\n            other = ()\n        super().update(other, **kwargs)\n\n    @overload\n    def setdefault(self, var: str, /, default: str = ...) -> str: ...", 'expect': 'C08.D5'},
